@@ -141,6 +141,7 @@ def opEvents (s : St) : List String → Option (List Ev)
       some ((if s.encrypted ∧ ¬ s.peerShutdown then [.socketError, .socketError] else [.socketError]) ++ [.socketDisconnected])
     else some []
   | ["sendiq"] => some [.sendIq]
+  | ["sendiq-retry"] => some [.sendIqRetry]
   | "seg" :: rest => ((splitPlus rest).mapM parseEl).map fun es => es.map Ev.recv   -- several elements in ONE read
   | ["ws"] => some [.recvWhitespace]
   | ["tick"] => some [.tick]
